@@ -90,7 +90,9 @@ TUserCb    == IsEv("cb") /\ UNCHANGED <<msgVars, lastRan>> /\ KeepB /\ KeepL
                     /\ inst[r.i].u = 1000 + E.m /\ r.arg = E.arg /\ r.on = E.t
                     /\ r.how = "queued" => E.cur = E.t
               /\ E.m \notin ucb /\ ucb' = ucb \cup {E.m}
-TQuiesce   == IsEv("quiesce") /\ Drained /\ C05Safety /\ AllCompleted /\ C10Inv
+\* "= TRUE": evaluated as ONE state-level expression. As bare conjuncts of an action TLC unrolls every \A into a
+\* list of conjuncts and recurses once per element (Java stack proportional to the number of message instances).
+TQuiesce   == IsEv("quiesce") /\ ((Drained /\ C05Safety /\ AllCompleted /\ C10Inv) = TRUE)
               /\ UNCHANGED <<msgVars, lastRan, ucb>> /\ KeepB /\ KeepL
 TReset     == IsEv("Reset") /\ ResetMsg("STOP") /\ lastRan' = [p \in Procs |-> 0] /\ ucb' = {}
               /\ rec' = << >> /\ inProxy' = [p \in Procs |-> 0] /\ pend' = [p \in Procs |-> NoCall] /\ plain' = << >>
